@@ -2,7 +2,7 @@
    Model: Model/UtfModel.v (hand-written after src/inc/UtfCodec.h and count_unicode_chars in src/gr_segment.cpp).
    A region of memory is the list of its code units; a read outside it is the trap value None. *)
 From GR Require Import Base.Bytes Model.UtfModel Proofs.UtfGeneric Proofs.UtfSweep8 Proofs.UtfSweep16 Proofs.UtfProofs
-                       Gen.GenUtf Proofs.GenAgree.
+                       Gen.GenUtf Proofs.GenAgreeUtf.
 Local Open Scope N_scope.
 
 (* ---- gr_count_unicode_characters(enc, begin, end, &err): never reads outside [begin,end), for ANY content *)
